@@ -356,6 +356,27 @@ def simplify_under(pc, node):
     return E.substitute(node, mapping)
 
 
+def resolve_ites(pc, node, timeout=5.0):
+    """Replace every if-then-else whose condition is decided by the path condition (z3: pc => c, or pc => not c) by the branch
+    taken.  Sound simplification; used where code builds a guarded value such as where(x != 0, x, 1/0)."""
+    pcn = [E._tobool(E.node_of(c)) for c in pc]
+    node = E.node_of(node)
+    mapping = {}
+    for n in E.postorder([node]):
+        if n.op == "ite" and n.args[0].op != "const":
+            c = n.args[0]
+            if c in mapping:
+                continue
+            st_, _, _ = smt.check_valid(pcn, c, timeout)
+            if st_ == "valid":
+                mapping[c] = E.TRUE
+                continue
+            st_, _, _ = smt.check_valid(pcn, E.not_(c), timeout)
+            if st_ == "valid":
+                mapping[c] = E.FALSE
+    return E.substitute(node, mapping) if mapping else node
+
+
 def _js(v):
     if isinstance(v, Fraction):
         if v.denominator == 1:
